@@ -748,14 +748,17 @@ def _diverges_on_longer(body, base_text):
 SEP_GUARD = re.compile(r"^!\w*first\w*$|^\w+ (!=|>) 0$|^!\w*first\w* &&|^!is_first$")
 
 
-def sepify(S):
+SEP_GUARD_STRICT = re.compile(r"^!\w*first\w*$|^\w+ (!=|>) 0$|^!is_first$")
+
+
+def sepify(S, strict=False):
     """rewrite loops of the form  { (SEP | ) BODY }*  whose first element is a separator written under a first-flag /
     index guard into  sepby(BODY, SEP)"""
     k = S[0]
     if k == "seq":
-        return ("seq", [sepify(x) for x in S[1]])
+        return ("seq", [sepify(x, strict) for x in S[1]])
     if k == "alt":
-        return ("alt", [(g, sepify(x)) for g, x in S[1]])
+        return ("alt", [(g, sepify(x, strict)) for g, x in S[1]])
     if k in ("loop", "star", "star1"):
         body = S[1]
         items = T.flat(body)
@@ -765,11 +768,13 @@ def sepify(S):
             empty1 = b1 == ("seq", []) or (b1[0] == "seq" and not b1[1])
             empty2 = b2 == ("seq", []) or (b2[0] == "seq" and not b2[1])
             sepb, g = (b1, g1) if empty2 and not empty1 else ((b2, g2) if empty1 and not empty2 else (None, None))
-            if sepb is not None and all(a[0] == "lit" for a in T.atoms(sepb)) and SEP_GUARD.search((g.get("text") or "").strip()):
-                return ("sepby", sepify(("seq", items[1:])), sepb)
-        return (k, sepify(body)) + tuple(S[2:])
+            if sepb is not None and all(a[0] == "lit" for a in T.atoms(sepb)) and (SEP_GUARD_STRICT if strict else SEP_GUARD).search((g.get("text") or "").strip()):
+                return ("sepby", sepify(("seq", items[1:]), strict), sepb)
+        return (k, sepify(body, strict)) + tuple(S[2:])
     if k == "sepby":
-        return ("sepby", sepify(S[1]), sepify(S[2]))
+        return ("sepby", sepify(S[1], strict), sepify(S[2], strict))
+    if k == "sepchain":
+        return ("sepchain", [(sepify(b, strict), sp) for b, sp in S[1]])
     return S
 
 
